@@ -56,6 +56,10 @@ namespace options
                const std::string& about = std::string(""),
                const std::string& group = std::string("arguments"));
 
+        // the groups refer back to their parser, so moving has to re-seat them
+        parser(parser&& other);
+        parser& operator=(parser&& other);
+
         auto parse(int argc, const char* const argv[]) -> arguments;
         auto parse(const std::vector<options::user_input>& args) -> arguments;
 
